@@ -265,17 +265,21 @@ func runC02(w *World, c *Check) {
 				keyTerm := fa.R.R(call.Call.Args[1])
 				// the delete must be reachable only through the "older than skew" edge
 				// of a comparison  now − <entry client time> > d
-				var pass []Edge
 				var seen []string
 				for _, cd := range fa.Conds {
-					if cd.Kind != "gt" {
-						continue
-					}
 					seen = append(seen, cd.String())
-					m := fullMatch(P("time.(Time).Sub(", reNow, ", ", re(`(?:.*\.cTime|`+q(keyTerm)+`)`), ")"), cd.L)
-					if m && isDurationParam(fa, cd.R) {
-						pass = append(pass, Edge{cd.If.Block(), cd.HoldsSucc})
+				}
+				// the comparison may be spelled in the function or in a boolean helper it calls
+				// (MatchGuardSet follows helpers with their parameters as the caller's terms)
+				var durs []string
+				for _, p := range fa.Fn.Params {
+					if p.Type().String() == "time.Duration" {
+						durs = append(durs, q(fa.R.R(p)))
 					}
+				}
+				var pass []Edge
+				if len(durs) > 0 {
+					pass, _ = fa.MatchGuardSet([]GuardPat{{Kind: "gt", X: P("time.(Time).Sub(", reNow, ", ", re(`(?:.*\.cTime|`+q(keyTerm)+`)`), ")"), Y: `(?:` + strings.Join(durs, "|") + `)`, PassWhen: true}}, nil)
 				}
 				where := w.Pos(InstrPos(in))
 				if len(pass) == 0 {
